@@ -13,12 +13,6 @@ import (
 	"github.com/kubewharf/kubegateway/pkg/ratelimiter/store/local"
 )
 
-// VerifC07CalcNext exposes calculateNextQuota.
-func VerifC07CalcNext(upstreamTotal proxyv1alpha1.RateLimitItemConfiguration, upstreamUsed proxyv1alpha1.RateLimitItemStatus,
-	cfg, recorded proxyv1alpha1.RateLimitItemConfiguration, status proxyv1alpha1.RateLimitItemStatus, clients int) proxyv1alpha1.RateLimitItemConfiguration {
-	return calculateNextQuota(upstreamTotal, upstreamUsed, cfg, recorded, status, clients, &proxyv1alpha1.RateLimitCondition{})
-}
-
 type verifC07Leader struct{}
 
 func (verifC07Leader) Run(ctx context.Context)                        {}
